@@ -31,6 +31,8 @@ fn main() {
 		"host_filter_gate" => probes::host_filter_gate(),
 		"subscription_bookkeeping" => probes::subscription_bookkeeping(),
 		"http_method_gate" => probes::http_method_gate(),
+		"response_member_forms" => probes::response_member_forms(),
+		"subscription_id_reuse" => probes::subscription_id_reuse(),
 		_ => json!({"probe": name, "error": "unknown probe"}),
 	};
 	println!("{}", res);
